@@ -404,9 +404,58 @@ def r5(ctx):
             ctx.ok(rule, "STD_OPTIONAL_FIELDS#bound", {"comparison": c.raw})
 
 
+def r6(ctx):
+    from .. import strtab as S
+    rule = "C03.R6"
+    ctx.rule(rule, "presence polarity: write_default announces a component as present exactly when it differs from the default "
+                   "(`DEFAULT_VALUE.ne(value)`) and writes the value on that same condition; write_opt writes the value when it is "
+                   "Some; read_opt / read_default read a value exactly when the presence bit is set and yield None / the default "
+                   "otherwise")
+    P = ctx.program()
+    want = {"write_opt": ("UperWriter as", lambda c: c.startswith("discr(")),
+            "write_default": ("UperWriter as", lambda c: c.startswith("PartialEq::ne(C::DEFAULT_VALUE")),
+            "read_opt": ("UperReader<B> as", lambda c: "read_bit_field_entry(" in c and c.startswith("Option::unwrap(")),
+            "read_default": ("UperReader<B> as", lambda c: "read_bit_field_entry(" in c and c.startswith("Option::unwrap("))}
+    for nm, (pre, cond_ok) in want.items():
+        bs = [b for b in P.lib_bodies("asn1rs") if b.name == nm and pre in b.path and b.def_kind == "AssocFn"]
+        if len(bs) != 1:
+            ctx.fail(rule, "anchor-lost:" + nm, "matched %d bodies" % len(bs))
+            continue
+        b = bs[0]
+        O = X.Origins(b, P)
+        wbs = [cs for cs in b.calls() if cs.name == "with_buffer"]
+        if len(wbs) != 1:
+            ctx.fail(rule, nm + "#anchor-lost:with_buffer", "%d with_buffer calls" % len(wbs), "%s:%d" % (b.file, b.line))
+            continue
+        cb = S.controlling_branch(b, O, wbs[0].bb)
+        flag = None
+        for cs in b.calls():
+            if cs.name == "write_bit_field_entry":
+                flag = F.rd(R.positional(O.call_args(cs)[2]))
+        cond = F.rd(R.positional(cb[1])) if cb else None
+        detail = {"function": b.path, "value_handled_under": cond, "on_true_side": cb[2] if cb else None, "announced_flag": flag}
+        probs = []
+        if cb is None:
+            probs.append("the value is written / read unconditionally")
+        else:
+            if not cond_ok(cond):
+                probs.append("the value is handled under `%s`" % cond[:80])
+            elif not cb[2]:
+                probs.append("the value is handled when `%s` is false" % cond[:80])
+        if nm == "write_default" and flag is not None and cond is not None and flag != cond:
+            probs.append("the presence bit announces `%s` but the value is written under `%s`" % (flag[:60], cond[:60]))
+        if nm == "write_opt" and flag is not None and ("Not" in flag or flag in ("0", "1")):
+            probs.append("the presence bit is `%s`" % flag)
+        if probs:
+            ctx.fail(rule, nm, "; ".join(probs), wbs[0].loc(), detail)
+        else:
+            ctx.ok(rule, nm, detail)
+
+
 def run(ctx):
     r1(ctx)
     r2(ctx)
     r3(ctx)
     r4(ctx)
     r5(ctx)
+    r6(ctx)
